@@ -352,20 +352,30 @@ func (tsbr *TimeSeriesBlockReader) GetTimeSeriesIterator(tsid uint64) (*compress
 func getOffsetFromTsoFile(tsoVersion byte, low uint32, high uint32, nTsids uint32, tsid uint64,
 	tsoBuf []byte) (bool, uint32, uint32) {
 
+	headerLen := 0
 	switch tsoVersion {
 	case sutils.VERSION_TSOFILE_V1[0]:
-		tsoBuf = tsoBuf[3:] // strip the version and number of entries
+		headerLen = 3 // the version and number of entries
 	case sutils.VERSION_TSOFILE_V2[0]:
-		tsoBuf = tsoBuf[9:] // strip the version and number of entries
+		headerLen = 9 // the version and number of entries
 	default:
 		log.Error(ErrBadTsoVersion)
 		return false, 0, 0
 	}
+	if len(tsoBuf) < headerLen {
+		// truncated index file
+		return false, 0, 0
+	}
+	tsoBuf = tsoBuf[headerLen:]
 
 	for low <= high {
 		mid := (high + low) / 2
 		// multiplying 'mid' by 12 because every tsid info takes 8 bytes for tsid and 4 bytes for tsid offset
 		offsetMid := mid * 12
+		if uint64(offsetMid)+12 > uint64(len(tsoBuf)) {
+			// the index claims more entries than the (truncated) file holds
+			return false, 0, 0
+		}
 		// tsid takes 8 bytes in the tso buffer
 		tempBuffer := tsoBuf[offsetMid : offsetMid+8]
 		midTsid := utils.BytesToUint64LittleEndian(tempBuffer)
@@ -409,12 +419,21 @@ func (tssr *TimeSeriesSegmentReader) loadTSOFile(fileName string) (byte, []byte,
 		return 0, nil, 0, err
 	}
 
+	if len(tssr.tsoBuf) < 1 {
+		return 0, nil, 0, ErrBadTsoVersion
+	}
 	tsoVersion := tssr.tsoBuf[0]
 	nEntries := uint64(0)
 	switch tsoVersion {
 	case sutils.VERSION_TSOFILE_V1[0]:
+		if len(tssr.tsoBuf) < 3 {
+			return 0, nil, 0, ErrLoadTsoFile
+		}
 		nEntries = uint64(utils.BytesToUint16LittleEndian(tssr.tsoBuf[1:3]))
 	case sutils.VERSION_TSOFILE_V2[0]:
+		if len(tssr.tsoBuf) < 9 {
+			return 0, nil, 0, ErrLoadTsoFile
+		}
 		nEntries = utils.BytesToUint64LittleEndian(tssr.tsoBuf[1:9])
 	default:
 		return 0, nil, 0, ErrBadTsoVersion
